@@ -258,7 +258,7 @@ impl Run {
             step(self.admin("DELETE", "/api/v1/cas/testbed/children/ca2", None)?, "remove child")?;
             let _ = self.admin("POST", "/api/v1/cas/ca2/sync/parents", None)?;
             // the failing synchronisation is a background task: wait for its report
-            for _ in 0..150 {
+            for _ in 0..1500 {
                 if Self::names_in(&self.admin("GET", "/api/v1/bulk/cas/issues", None)?).contains("ca2") {
                     break;
                 }
